@@ -156,16 +156,32 @@ def schema_diffs(snap, fresh, state, apps):
         if t not in fresh['tables']:
             continue        # oracle did not create it (routed elsewhere)
         if t not in snap['tables']:
-            out.append({'kind': 'table_missing', 'table': t})
+            out.append({'kind': 'table_missing', 'table': t, 'what': []})
             continue
         a, m, f = model_by_table(state, t)
         names = explicit_names(m) if (m is not None and f is None) else None
+        if names:
+            # only names the fresh schema really carries (e.g. a deferrable
+            # UniqueConstraint creates nothing on SQLite)
+            ft = fresh['tables'][t]
+            have = {i['name'] for i in ft['indexes']} | {
+                n for (n, _) in ft['checks'] if n} | {
+                n for (n, _) in ft['uniques'] if n}
+            names = names & have
         for d in snapshot.diff_tables(snap['tables'][t], fresh['tables'][t],
                                       names):
             rec = {'kind': d[0], 'table': t, 'what': list(d[1:])}
             if d[0] in ('index_missing', 'index_extra') and m is not None \
                     and f is None:
                 rec['origin'] = index_origin(a, m, d[1], d[2])
+            elif d[0] in ('check_missing', 'check_extra'):
+                rec['origin'] = ('column_check' if re.match(
+                    r'^\w+ >= 0$', d[1] or '') else 'constraints')
+            elif d[0] == 'named_object_missing' and m is not None:
+                meta = m.get('meta') or {}
+                rec['origin'] = 'indexes' if any(
+                    ix.get('name') == d[1]
+                    for ix in meta.get('indexes') or []) else 'constraints'
             out.append(rec)
     return out
 
